@@ -281,6 +281,33 @@ func init() {
 	}
 	verifAPI["verifNow"] = func(fr *frame, args []value) value { return intrinsics["time.Now"](fr, nil) }
 	verifAPI["verifExpectExit"] = func(fr *frame, args []value) value { fr.i.expectExit = true; return nil }
+	verifAPI["verifRunWithCrash"] = func(fr *frame, args []value) (res value) {
+		// verifRunWithCrash(k, f): run f; the process is killed (SIGKILL: no deferred
+		// function runs) right before its k-th storage-mutating operation. Returns
+		// whether the crash happened (false: f finished with fewer operations).
+		i := fr.i
+		k := int(i.concreteInt(args[0], "crash index"))
+		st := i.fs()
+		if k <= 0 {
+			call(i, fr, 0, args[1], nil)
+			return false
+		}
+		st.crashAt = st.ops + k
+		defer func() {
+			st.crashAt = 0
+			if r := recover(); r != nil {
+				if pe, ok := r.(pathEnd); ok && pe.reason == "crash" {
+					i.crashed = true
+					i.path.events = append(i.path.events, "crash "+pe.detail)
+					res = true
+					return
+				}
+				panic(r)
+			}
+		}()
+		call(i, fr, 0, args[1], nil)
+		return false
+	}
 	verifAPI["verifEvent"] = func(fr *frame, args []value) value {
 		fr.i.path.events = append(fr.i.path.events, cstr(args[0], "event"))
 		return nil
